@@ -98,6 +98,13 @@ def corr_remove_quotes(model, r, n):
     return acc.result()
 
 
+GLOB_RULES = ["curl ** -o *", "find ** -exec *", "rm ** /nonexistent/build/*", "git ** --force*", "* ** *", "curl **", "ls **/x", "cat /nonexistent/**", "tar ** -C /nonexistent/*", "wget *://*", "scp * *:/srv/*",
+              "rm -rf /nonexistent/*", "echo ?? **", "curl * -o *", "**", "** --force", "git push **", "g?t ** *[!a]"]
+GLOB_CMDS = [["curl", "http://example.com/x", "-o", "/nonexistent/x"], ["find", "/nonexistent/d", "-name", "a", "-exec", "cat", "/nonexistent/f", "+"], ["rm", "-rf", "/nonexistent/build/out/a.o"],
+             ["git", "push", "origin/main", "--force-with-lease"], ["wget", "https://h/a/b"], ["scp", "a", "h:/srv/www/x"], ["cat", "/nonexistent/ssl/certs/x.pem"], ["tar", "xf", "a.tar", "-C", "/nonexistent/x/y"],
+             ["echo", "ab", "c/d"], ["ls", "a/b/x"], ["curl", "x"], ["git", "push", "--force"], ["curl", "-o", "f"], ["rm", "-rf", "/nonexistent/a"]]
+
+
 def search(ctx):
     from dippy.core import config as C
     from dippy.core.analyzer import analyze
@@ -213,6 +220,23 @@ def search(ctx):
                 vios.append({"input": {"command": cmd, "config": ("deny " + p + ("|" if rule.exact else "") + "\n"), "cwd": CWD}, "observed": {"matched": got}, "required": f"literal pattern matches by whole-word prefix / exactly: {want_hit}", "oracle": "literal-prefix"})
         if len(vios) >= 5:
             break
+    # glob patterns of command rules are fnmatch patterns over the command text (`*` and `**` alike match any characters, a
+    # slash included; a trailing " *" also admits the bare command): checked against the standard library's fnmatch on
+    # patterns that mix `**` with other wildcards and commands with slashes under them (deterministic)
+    import fnmatch as _fn
+
+    for pat in GLOB_RULES:
+        for ws in GLOB_CMDS:
+            for exact in (False, True):
+                rule = C.Rule("deny", pat, exact=exact)
+                got = C.match_command(C.SimpleCommand(words=ws), C.Config(rules=[rule]), cwd) is not None
+                text = " ".join(ws)
+                want_hit = _fn.fnmatch(text, pat) or (pat.endswith(" *") and text == pat[:-2])
+                stats["glob_rule_checks"] += 1
+                stats["evaluations"] += 1
+                if got != want_hit and stats["glob_rule_violations"] < 4:
+                    stats["glob_rule_violations"] += 1
+                    vios.insert(0, {"input": {"command": text, "config": "deny " + pat + (" |" if exact else "") + "\n", "cwd": CWD}, "observed": {"matched": got}, "required": f"a glob pattern of a command rule matches the command text like fnmatch does: {want_hit}", "oracle": "glob-rule(fnmatch reference)"})
     return {"violations": vios[:5], "evaluations": stats["evaluations"], "distinct_nontrivial": stats["distinct"], "stats": dict(stats), "samples": samples, "oracle": "last-match / inert / literal-prefix / prefix-transparent / deny-message on analyze() and match_command()"}
 
 
